@@ -698,20 +698,29 @@ func persistBasicSegment(
 		ioCh <- ioResult{kind: "buf", want: len(seg.buf), got: bufWritten, err: err}
 	}()
 
+	// Always wait for both writers, even after an error: a writer that
+	// is left behind would perform its write at some later time, on top
+	// of whatever a later persistence round has put there by then.
 	resMap := map[string]ioResult{}
-	for len(resMap) < 2 {
+	var errFirst error
+	for i := 0; i < 2; i++ {
 		res := <-ioCh
-		if res.err != nil {
-			return rv, res.err
-		}
-		if res.want != res.got {
-			return rv, fmt.Errorf("store: persistSegment error writing,"+
-				" res: %+v, err: %v", res, res.err)
+		if errFirst == nil {
+			if res.err != nil {
+				errFirst = res.err
+			} else if res.want != res.got {
+				errFirst = fmt.Errorf("store: persistSegment error writing,"+
+					" res: %+v, err: %v", res, res.err)
+			}
 		}
 		resMap[res.kind] = res
 	}
 
 	close(ioCh)
+
+	if errFirst != nil {
+		return rv, errFirst
+	}
 
 	return SegmentLoc{
 		Kind:       seg.Kind(),
